@@ -5,7 +5,7 @@ from srcreplay import replay_src  # translated transport layer run in Coq on the
 PROP = {
     "pre": [regen_src],
     "extra": [replay_src({'cutcc'}, per_scn=120)],
-    "coq": ["C13", "C13b", "C13c", "C03t"],
+    "coq": ["C13", "C13b", "C13c", "C03t", "C05t"],
     "exhaustive": False,
     "rule": "Every cut offset 0..len x {peer closes, peer resets, peer stalls until the deadline}: (a) real per-connection server "
             "path on a scripted connection fed with frame[:k], for one representative + seeded random valid request frames of each "
